@@ -75,6 +75,46 @@ def random_losses(rng, n):
     return out
 
 
+def symbolic(res, length):
+    """Apalache: the same actions and invariants, symbolically, over larger ranges than TLC enumerates (losses 0..16, max_epochs
+    <= 8, min_delta 0..3, patience 1..3, step 1..3, thresholds 0..3, cooldown 0..2, scheduler patience 0..2, min_lr lr0/2..lr0/16),
+    runs of up to `length` epochs; two probes must be violated (early stops and rate reductions are reachable)."""
+    from concurrent.futures import ThreadPoolExecutor
+    from harness.tlc import SPEC_DIR
+
+    src = open(os.path.join(SPEC_DIR, "TrainControl.tla")).read()
+    head = src[:src.index("=============================================================================")]
+    head = head.replace("MODULE TrainControl ", "MODULE TrainControlApa ").replace("EXTENDS Integers, Sequences, FiniteSets, TLC", "EXTENDS Integers, Sequences, FiniteSets, Apalache")
+    a, b = head.index("VARIABLES cfg,"), head.index("vars == ")
+    typed = [("cfg", "{ max_epochs: Int, es: Bool, md: Int, pat: Int, sched: Str, step: Int, mode: Str, thr: Int, cool: Int, rpat: Int, K: Int, save_last: Bool }"),
+             ("hist", "Seq(Int)"), ("lrs", "Seq(Int)"), ("stopped", "Bool"), ("esBest", "Int"), ("wait", "Int"), ("k", "Int"), ("rBest", "Int"),
+             ("bad", "Int"), ("cooldown", "Int"), ("ckBest", "Int"), ("ckLast", "Int"), ("reds", "Set(Int)")]
+    head = head[:a] + "VARIABLES\n" + ",\n".join("  \\* @type: %s;\n  %s" % (t, v) for v, t in typed) + "\n" + head[b:]
+    head = head.replace("Lowest(h) == CHOOSE", "\\* @type: (Seq(Int)) => Int;\nLowest(h) == CHOOSE")
+    tmp = tempfile.mkdtemp(prefix="verif_apa_")
+    try:
+        with open(os.path.join(tmp, "TrainControlApa.tla"), "w") as f:
+            f.write(head + open(os.path.join(SPEC_DIR, "TrainControlApa.tla.in")).read())
+        obligations = [("all invariants, runs of up to %d epochs" % length, "ApaInv", length, "NoError"),
+                       ("probe: early stops are reachable", "ProbeNeverStops", 3, "Error"), ("probe: rate reductions are reachable", "ProbeNeverReduces", 3, "Error")]
+
+        def one(k_ob):
+            k, (name, inv, n, want) = k_ob
+            cmd = ["apalache-mc", "check", "--init=ApaInit", "--next=ApaNext", "--inv=" + inv, "--length=%d" % n, "--out-dir=" + os.path.join(tmp, "out%d" % k), "TrainControlApa.tla"]
+            p = subprocess.run(cmd, cwd=tmp, stdout=subprocess.PIPE, stderr=subprocess.STDOUT, text=True, timeout=3000)
+            got = "NoError" if "The outcome is: NoError" in p.stdout else ("Error" if "The outcome is: Error" in p.stdout else "?")
+            return name, want, got, p.stdout[-600:]
+
+        with ThreadPoolExecutor(max_workers=3) as ex:
+            outs = list(ex.map(one, list(enumerate(obligations))))
+        bad = [(n, w, g, o) for n, w, g, o in outs if w != g]
+        if bad:
+            raise TLCError("Apalache obligation '%s': expected %s, got %s\n%s" % bad[0])
+        res.coverage["symbolic_check"] = dict(tool="apalache-mc 0.58", obligations=[o[0] for o in outs], discharged=len(outs))
+    finally:
+        shutil.rmtree(tmp, ignore_errors=True)
+
+
 def run_jobs(jobs, repo, workers=12, timeout=1500):
     from concurrent.futures import ThreadPoolExecutor
 
@@ -123,6 +163,7 @@ def run(tier, seed, only=None):
         r2 = check_model("MC_TrainControl", MC_CFG % (4, "{0, 1, 2}", " EsPatienceWired <- SchedulerPatience", "INVARIANT NotLate"), timeout=600,
                          expect_violation=("invariant", "NotLate"))
         res.add_mc("MC_TrainControl counter-model (early stopping given the scheduler's patience)", r2, "must violate NotLate (expected)")
+        symbolic(res, 3 if quick else 5)
         jobs = []
         for n in range(160 if quick else 2400):
             c = random_cfg(rng)
